@@ -40,7 +40,7 @@ def trial(bindir, pname, phase, k, mode):
         if mode == "proc" and not victim["comm"].startswith("redo"):
             return {"skipped": "call %d is made by %s, not a redo process" % (k, victim["comm"])}
         # ---- recovery, no manual cleanup
-        rec = cp.run(["redo-ifchange"] + spec["entry"], shim=False, timeout=60)
+        rec = cp.run(["redo-ifchange"] + spec.get("recover_entry", spec["entry"]), shim=False, timeout=60)
         want = spec["expect"](cur)
         got = cp.contents(list(want))
         problems = []
@@ -96,7 +96,7 @@ def run(res):
         proof["coqchk_axioms"] = common.coqchk("C10")
     bindir = common.build_redo(True)
     crash.build_shim()
-    plans = [("two_level", "rebuild"), ("stamped", "rebuild"), ("two_level", "first")] if t == "quick" else \
+    plans = [("two_level", "rebuild"), ("stamped", "rebuild"), ("two_level", "first"), ("two_tops", "rebuild")] if t == "quick" else \
             [(p, ph) for p in crash.PROJECTS for ph in ("first", "rebuild")]
     jobs = []
     dist = {}
@@ -148,7 +148,7 @@ def run(res):
         "trusted_base": ["Coq 8.16.1 kernel", "crash/shim.c (LD_PRELOAD interposer on libc: rename*, unlink*, open* with O_CREAT/O_TRUNC, ftruncate, write/pwrite to the state database files)",
                          "lib/crash.py", "SQLite's own crash atomicity (A-SQLITE-ATOMIC)"],
         "evaluations": done, "distinct_nontrivial": done,
-        "rule": "for each project (two-level chain, checksummed dependency, default rule with two targets) and phase (first build on an empty state directory / rebuild after a source edit) the build is run once to number its state-changing calls, then repeated for each kill point: the calling redo process (mode proc) or the whole process group (mode group) receives SIGKILL immediately before the call; recovery = redo-ifchange (must end, exit 0, every target correct, nothing marked overridden), then a source edit and redo-ifchange again (must propagate); quick tier: every non-database call and every fourth database write; non-trivial = every kill point",
+        "rule": "for each project (two-level chain, checksummed dependency, default rule with two targets, two independent targets recovered in the other order) and phase (first build on an empty state directory / rebuild after a source edit) the build is run once to number its state-changing calls, then repeated for each kill point: the calling redo process (mode proc) or the whole process group (mode group) receives SIGKILL immediately before the call; recovery = redo-ifchange (must end, exit 0, every target correct, nothing marked overridden), then a source edit and redo-ifchange again (must propagate); quick tier: every non-database call and every fourth database write; non-trivial = every kill point",
         "exhaustive": t == "thorough",
         "samples": samples, "input_distribution": dist, "skipped_not_a_redo_process": skipped, "known_finding_hits": known,
     })
